@@ -141,7 +141,7 @@ def judge_obs(sheet, settings, ob):
             # (2a) the written file carries the reported colour
             eff = None
             if ob["out_text"] is not None and sel in by_sel_out:
-                d = O.last_decl(by_sel_out[sel][0][0], "color")
+                d = _colour_decl(by_sel_out[sel])
                 if d is not None:
                     eff = O.resolve(css_tokens.serialize_value(d[2]), defs_out)
             if eff is None or O.colour_key(eff) is None or O.colour_key(eff) != O.colour_key(after):
@@ -171,7 +171,7 @@ def judge_obs(sheet, settings, ob):
                 a = by_sel_in.get(sel)
                 b = by_sel_out.get(sel)
                 # custom-property definitions may legitimately change (another, adjusted rule references them)
-                if a is None or b is None or _decl_tree(a[0][0], True) != _decl_tree(b[0][0], True):
+                if a is None or b is None or [_decl_tree(x[0], True) for x in a] != [_decl_tree(x[0], True) for x in b]:
                     v("attention_rule_changed/" + it.kind, "%s needs attention but its declarations changed in the written file" % sel)
         else:
             accessible_n += 1
@@ -179,7 +179,7 @@ def judge_obs(sheet, settings, ob):
             # judged on what the written file says (a custom property adjusted for an earlier rule makes later users readable)
             t_eff = t_in
             if ob["out_text"] is not None and sel in by_sel_out:
-                d = O.last_decl(by_sel_out[sel][0][0], "color")
+                d = _colour_decl(by_sel_out[sel])
                 if d is not None:
                     t_eff = O.resolve(css_tokens.serialize_value(d[2]), defs_out)
             t_rgb = O.opaque_rgb(t_eff, bg_rgb) if (t_eff and bg_rgb) else None
@@ -195,6 +195,16 @@ def judge_obs(sheet, settings, ob):
     if total == len(coloured) and accessible_n != counts["accessible"]:
         v("accounting/accessible_count", "%d rules are in neither list but 'already readable' says %d" % (accessible_n, counts["accessible"]))
     return out
+
+
+def _colour_decl(rules_with_selector):
+    """Several rules may share a selector (e.g. two html blocks): the text colour is the last colour declaration among them."""
+    d = None
+    for decls, _path in rules_with_selector:
+        x = O.last_decl(decls, "color")
+        if x is not None:
+            d = x
+    return d
 
 
 def _decl_tree(decls, skip_custom=False):
